@@ -622,19 +622,21 @@ func init() {
 				fn := p.MustFn(name)
 				sets := false
 				makes := false
-				eachInstr(fn, func(in ssa.Instruction) {
-					st, ok := in.(*ssa.Store)
-					if !ok {
-						return
-					}
-					if fv := fieldVar(st.Addr); fv != nil {
-						if fieldIs(fv, "TemplateNode") && !isNilConst(st.Val) {
-							sets = true
+				walkFuncTree(fn, func(f *ssa.Function) {
+					eachInstr(f, func(in ssa.Instruction) {
+						st, ok := in.(*ssa.Store)
+						if !ok {
+							return
 						}
-						if fieldIs(fv, "Nodes") {
-							makes = true
+						if fv := fieldVar(st.Addr); fv != nil {
+							if fieldIs(fv, "TemplateNode") && !isNilConst(st.Val) {
+								sets = true
+							}
+							if fieldIs(fv, "Nodes") {
+								makes = true
+							}
 						}
-					}
+					})
 				})
 				if !makes {
 					continue
@@ -674,6 +676,179 @@ func init() {
 			if n == 0 {
 				undecided("chainEnd returns nothing")
 			}
+		},
+	})
+}
+
+func init() {
+	register(&Rule{
+		ID: "C12.R10", Props: []string{"C12", "C11", "C13"}, Min: 2,
+		Doc: "a recovered panic becomes the function's error: wherever a function of the module defers a closure that calls recover() and assigns an error from what it recovered, the variable it assigns is a *named result* of the function (the value the caller gets) — not a local that the return statement has already read. `var err error; defer func() { if r := recover(); r != nil { err = … } }(); out := f(); return out, err` returns (nil, nil) for a panicking f: the panic is swallowed and the render reports success",
+		Run: func(p *Prog, c *Ctx) {
+			n := 0
+			for _, fn := range p.liveFuncs() {
+				if pk := funcPkg(fn); pk == nil || strings.Contains(pk.Path(), "/cmd/") {
+					continue
+				}
+				res := fn.Signature.Results()
+				if res.Len() == 0 || !isErrorType(res.At(res.Len()-1).Type()) {
+					continue
+				}
+				eachInstr(fn, func(in ssa.Instruction) {
+					d, ok := in.(*ssa.Defer)
+					if !ok {
+						return
+					}
+					mc, ok := d.Call.Value.(*ssa.MakeClosure)
+					if !ok {
+						return
+					}
+					cl, _ := mc.Fn.(*ssa.Function)
+					if cl == nil {
+						return
+					}
+					recovers := false
+					eachInstr(cl, func(x ssa.Instruction) {
+						if call, ok := x.(*ssa.Call); ok {
+							if b, ok := call.Call.Value.(*ssa.Builtin); ok && b.Name() == "recover" {
+								recovers = true
+							}
+						}
+					})
+					if !recovers {
+						return
+					}
+					// error-typed variables of fn that the closure assigns
+					eachInstr(cl, func(x ssa.Instruction) {
+						st, ok := x.(*ssa.Store)
+						if !ok {
+							return
+						}
+						fv, ok := st.Addr.(*ssa.FreeVar)
+						if !ok {
+							return
+						}
+						pt, ok := fv.Type().(*types.Pointer)
+						if !ok || !isErrorType(pt.Elem()) {
+							return
+						}
+						n++
+						// the binding: the cell of fn that is captured at this position
+						var cell ssa.Value
+						for i, f := range cl.FreeVars {
+							if f == fv && i < len(mc.Bindings) {
+								cell = mc.Bindings[i]
+							}
+						}
+						named := false
+						if al, ok := cell.(*ssa.Alloc); ok {
+							for i := 0; i < res.Len(); i++ {
+								if res.At(i).Name() != "" && res.At(i).Name() == al.Comment {
+									named = true
+								}
+							}
+						}
+						c.check(named, fmt.Sprintf("%s: the recovered error is the function's result#%d", shortName(fn), n), p.instrPos(st), "assigned to a named result", "the deferred recover assigns a local variable, not a named result: the return statement has evaluated its operands before the deferred function runs, so the caller gets the old value (nil) — a panicking callee looks like one that succeeded")
+					})
+				})
+			}
+		},
+	})
+
+	register(&Rule{
+		ID: "C16.R14", Props: []string{"C16", "C03"}, Min: 1,
+		Doc: "the fallback children of a v-html / v-text element are evaluated only when they are shown: in evaluate()'s generic element path the children are evaluated under a test of whether a content carrier was stored for the element (HasAttr of data-v-html-content / data-v-text-content is false). Evaluated regardless and thrown away afterwards, the children still leave their traces in the render — a v-once element among them is recorded as emitted, and the next instance, whose value does not resolve and which *does* show its fallback, leaves it out: emitted zero times",
+		Run: func(p *Prog, c *Ctx) {
+			fn := p.MustFn("(*vuego.Vue).evaluate")
+			n := 0
+			for _, site := range callsIn(fn) {
+				if calleeName(site.Common()) != "(*vuego.Vue).evaluateChildren" {
+					continue
+				}
+				// the generic element path: the call whose result becomes the children of the clone that went through
+				// evalAttributes (the <template> and v-pre paths do not)
+				attrs := false
+				for _, s2 := range callsIn(fn) {
+					if calleeName(s2.Common()) == "(*vuego.Vue).evalAttributes" && (dominates(s2, site) || dominates(site, s2)) {
+						attrs = true
+					}
+				}
+				if !attrs {
+					continue
+				}
+				n++
+				guarded := guardedBy(site.Block(), func(cnd ssa.Value, want bool) bool {
+					cl := isCallNamed(cnd, "helpers.HasAttr")
+					if cl == nil || want {
+						return false
+					}
+					k, ok := constString(cl.Call.Args[1])
+					return ok && (k == "data-v-html-content" || k == "data-v-text-content")
+				})
+				c.check(guarded, fmt.Sprintf("evaluate: children of the generic element#%d are evaluated only if no content replaces them", n), p.instrPos(site), "under !HasAttr(carrier)", "the children are evaluated whether or not v-html / v-text replaced them: what the evaluation records (v-once elements seen) is recorded for children that are never written, and a later instance that shows its fallback finds them `already emitted`")
+			}
+			if n == 0 {
+				undecided("evaluate has no generic element path that evaluates children")
+			}
+		},
+	})
+
+	register(&Rule{
+		ID: "C19.R23", Props: []string{"C19"}, Min: 2,
+		Doc: "the formatter's decisions do not depend on how its input was laid out: (a) the choice between inline and block layout (shouldKeepInline and what it calls by name) never looks at the *length* of a text node's data — raw text carries the source's indentation, which the formatter itself changes, so the second pass would decide differently from the first; (b) an ampersand in an attribute value is escaped whenever a character reference could start after it (the next byte), not only when a complete `&name;` follows — the parser decodes `&copy`, `&lt`, `&#60` without the semicolon too, and an unescaped one changes the value on the next pass",
+		Run: func(p *Prog, c *Ctx) {
+			fn := p.MustFn("(*formatter.Formatter).shouldKeepInline")
+			set := map[*ssa.Function]bool{}
+			var add func(f *ssa.Function)
+			add = func(f *ssa.Function) {
+				if f == nil || set[f] || !inModule(f) {
+					return
+				}
+				set[f] = true
+				for _, af := range f.AnonFuncs {
+					add(af)
+				}
+				for _, site := range callsIn(f) {
+					add(site.Common().StaticCallee())
+				}
+			}
+			add(fn)
+			bad := ""
+			for _, g := range sortedFuncs(set) {
+				for _, site := range callsIn(g) {
+					if calleeName(site.Common()) != "builtin.len" {
+						continue
+					}
+					if fl := loadedField(site.Common().Args[0]); fl != nil && fieldIs(fl, "Data") {
+						bad = p.instrPos(site)
+					}
+				}
+			}
+			c.check(bad == "", "shouldKeepInline: no layout decision on the length of raw text", p.pos(fn.Pos()), "no len(node.Data)", "the inline / block decision measures the raw text of the element (at "+bad+"): the measure includes the source's indentation and line breaks, which formatting changes — formatting the result again takes the other decision")
+			esc := p.MustFn("formatter.escapeAttr")
+			have := comparedChars(esc)
+			c.check(!have[';'], "escapeAttr: an ampersand is judged by what follows it directly", p.pos(esc.Pos()), "no search for a closing semicolon", "escapeAttr looks for the `;` that would complete a character reference before it escapes an ampersand: references the parser decodes without a semicolon (&copy, &lt, &#60) are written raw, and the attribute's value is another one after the next parse")
+		},
+	})
+
+	register(&Rule{
+		ID: "C20.R19", Props: []string{"C20"}, Min: 1,
+		Doc: "Markdown text is unescaped by Markdown's rules: the Markdown package resolves character references with goldmark's own util (ResolveNumericReferences, ResolveEntityNames, UnescapePunctuations) — the functions the reference renderer uses — and never with html.UnescapeString. HTML5 also decodes legacy names without a semicolon (`&copy 2024`, `?a=1&lt=5`); CommonMark does not: titles, alt texts and info strings would differ from the reference",
+		Run: func(p *Prog, c *Ctx) {
+			n := 0
+			bad := ""
+			for _, fn := range p.liveFuncs() {
+				if pk := funcPkg(fn); pk == nil || pk.Path() != markdownPkg {
+					continue
+				}
+				for _, site := range callsIn(fn) {
+					n++
+					if nm := calleeName(site.Common()); nm == "html.UnescapeString" || nm == "golang.org/x/net/html.UnescapeString" {
+						bad = shortName(fn) + " at " + p.instrPos(site)
+					}
+				}
+			}
+			c.check(bad == "", "markdown: references are resolved with goldmark's util", "-", fmt.Sprintf("%d calls, none to html.UnescapeString", n), "html.UnescapeString is used in "+bad+": it follows the HTML5 grammar (legacy entity names and numbers without a semicolon are decoded), the reference renderer follows CommonMark's")
 		},
 	})
 }
